@@ -242,7 +242,8 @@ def renderTop : TopOut → String
   | .result r final =>
     let out := match r.output with | some v => s!"ok {renderVal v}" | none => "none"
     let insp := match r.output with | some _ => renderInsp final.insp | none => "-"
-    s!"R {out} ; {joinWith "|" (r.errs.map renderErr)} ; insp={insp}"
+    let ir := if r.errs.isEmpty && r.output.isSome then "ok" else "err"
+    s!"R {out} ; {joinWith "|" (r.errs.map renderErr)} ; insp={insp} ; ir={ir}"
 
 def renderEmis : Emis → String
   | .user l => renderErr l.err
